@@ -75,6 +75,23 @@ def annotated(w: typing.Annotated[int, TagA] = 4, z: int = 5):
   return ('annotated', w, z)
 
 
+class DenseLayer:
+  """A class whose snake_cased name collides with the function below."""
+
+  def __init__(self, units=1):
+    self.units = units
+
+  def __eq__(self, o):
+    return isinstance(o, DenseLayer) and o.units == self.units
+
+  def __repr__(self):
+    return f'DenseLayer({self.units})'
+
+
+def dense_layer(units=1):
+  return ('dense_layer', units)
+
+
 def make_pool():
   """Returns [(name, factory)] ; every factory call builds a fresh configuration."""
   P = []
@@ -166,6 +183,11 @@ def make_pool():
   @add('leaves')
   def _():
     return fdl.Config(fc, Color.RED, q=b'bytes', r=[1.5, None, True, 'str', fb, Cls])
+
+  @add('callables-with-colliding-names')
+  def _():
+    return fdl.Config(fc, fdl.Config(DenseLayer, 1), q=fdl.Config(dense_layer, 2),
+                      r=[fdl.Config(DenseLayer, 3), fdl.Partial(dense_layer, 4), fdl.Config(DenseLayer, 1)])
 
   @add('all-leaf-arguments-with-sets')
   def _():
